@@ -63,7 +63,7 @@ class Engine:
     fork_per_run = True
     run_timeout_s = 1500
     minimise_budget_s = 120
-    default_runs = {"quick": 288, "thorough": 10_000_000}
+    default_runs = {"quick": 256, "thorough": 10_000_000}
     default_budget_s = {"quick": 70, "thorough": 900}
     determinism_sample = {"quick": 12, "thorough": 48}
     rule = (
